@@ -125,3 +125,41 @@ theorem truncBytes_append (hdr D : List Byte) (p : Nat) :
     truncBytes (hdr ++ D) (hdr.length + p) = hdr ++ truncBytes D p := prefixAt_append hdr D p
 
 end Sf
+
+namespace Sf
+
+/-! ## a zero tail behind the data (the RIFF pad byte) is invisible to `writeAt` / `truncBytes` -/
+
+theorem zeros_length (n : Nat) : (zeros n).length = n := by simp [zeros]
+
+theorem take_zeros (k n : Nat) : (zeros n).take k = zeros (min k n) := by simp [zeros, List.take_replicate]
+
+theorem drop_zeros (k n : Nat) : (zeros n).drop k = zeros (n - k) := by simp [zeros, List.drop_replicate]
+
+theorem zeros_append (a b : Nat) : zeros a ++ zeros b = zeros (a + b) := by simp [zeros, List.replicate_append_replicate]
+
+theorem prefixAt_zeros_tail (D : List Byte) (t p : Nat) : prefixAt (D ++ zeros t) p = prefixAt D p := by
+  unfold prefixAt
+  by_cases h1 : p ≤ D.length
+  · rw [if_pos h1, if_pos (by rw [List.length_append]; omega), List.take_append_of_le_length h1]
+  · rw [if_neg h1]
+    by_cases h2 : p ≤ (D ++ zeros t).length
+    · rw [if_pos h2, List.take_append, List.take_of_length_le (by omega), take_zeros]
+      rw [List.length_append, zeros_length] at h2
+      congr 2; omega
+    · rw [if_neg h2, List.append_assoc, zeros_append]
+      rw [List.length_append, zeros_length] at h2 ⊢
+      congr 2; omega
+
+theorem truncBytes_zeros_tail (D : List Byte) (t p : Nat) : truncBytes (D ++ zeros t) p = truncBytes D p :=
+  prefixAt_zeros_tail D t p
+
+/-- a write over data followed by `t` zero bytes: the data part as if the tail were not there; what the write did not
+    reach of the tail stays -/
+theorem writeAt_zeros_tail (D : List Byte) (t p : Nat) (d : List Byte) :
+    writeAt (D ++ zeros t) p d = writeAt D p d ++ zeros (t - (p + d.length - D.length)) := by
+  rw [writeAt_eq, writeAt_eq, prefixAt_zeros_tail, List.append_assoc, List.append_assoc, List.append_assoc]
+  congr 2
+  rw [List.drop_append, drop_zeros]
+
+end Sf
